@@ -12,6 +12,7 @@ import AlgoVerif.Proofs.C14Cert
 import AlgoVerif.Proofs.C14Dijkstra
 import AlgoVerif.Proofs.C14Prim
 import AlgoVerif.Proofs.C14Admits
+import AlgoVerif.Proofs.C14Kept
 import AlgoVerif.Props.C18
 /-!
 # C14 — property theorems
@@ -516,3 +517,119 @@ example : (((World.init .directed 3).run
         (o.e, (List.range 3).map fun v => (o.g.adj.getD v []).map (·.to))) =
     [(2, [[1], [2], []]), (2, [[], [0], [2]])] := by decide
 
+
+/-! ### constructors with an edge list, and `AddEdge` afterwards
+
+`Model/C14R.lean`: `World.initWith k n es0` is `NewX(n, es0…)` (the Go constructors allocate one empty list per
+vertex and call `AddEdge` for every edge of the list). -/
+
+/-- **`NewX(V, edges…)` and then `AddEdge`.**  The constructor with the edge list `es0` gives the object that
+`NewX(V)` followed by the same `AddEdge` calls gives; and for every interleaving of further `AddEdge` calls and
+queries on it, the object ends as the graph of `es0` followed by the calls, and every query returns its answer on
+the graph consisting of exactly `es0` and the edges added before it — the answer the property demands (`Admits`).
+(Seeded change C14-q1: adjacency lists carved out of one backing array by the constructor, so that a later
+`AddEdge(v, ·)` overwrites the first entry of a later vertex, is excluded by this theorem for the Model and shows
+as a difference between implementation and Model on `corpus/C14/16-ctor-edges-then-addedge.ops`.) -/
+theorem C14_ctor_history (k : Kind) (n : Nat) (es0 : List EdgeIn) (ops : List Op)
+    (hs : ∀ op ∈ ops, op.single = true) :
+    World.initWith k n es0 = ((World.init k n).run (es0.map fun e => Op.edge e.u e.v e.w)).1 ∧
+    ((World.initWith k n es0).run ops).1 = World.initWith k n (es0 ++ edgesOf ops) ∧
+    ∀ i q, ops[i]? = some (.query q) → q.applies k = true →
+      ∃ a, ((World.initWith k n es0).run ops).2[i]? = some a ∧
+        a = (GObj.build k n (es0 ++ edgesOf (ops.take i))).answer q ∧
+        Admits k n (es0 ++ edgesOf (ops.take i)) q a := by
+  obtain ⟨h1, h2, _, h4⟩ := run_single k n ops hs es0
+  refine ⟨initWith_eq_run k n es0, ?_, ?_⟩
+  · rw [← initWith_eval, run_refines, ← initWith_eval]
+    show SWorld.eval _ = SWorld.eval _
+    unfold SWorld.eval
+    rw [h1, h2]
+  · intro i q hi hq
+    refine ⟨_, ?_, rfl, answer_admitted k n _ q hq⟩
+    rw [← initWith_eval, run_refines]
+    exact h4 i q hi
+
+-- the history of `corpus/C14/16-ctor-edges-then-addedge.ops`, case 1: NewDirected(5, 0→1, 1→2, 2→3), AddEdge(0, 4), Adj(1)
+example : ((World.initWith .directed 5 [⟨0, 1, 0⟩, ⟨1, 2, 0⟩, ⟨2, 3, 0⟩]).run
+      [.edge 0 4 0, .query (.adjOf 1)]).2.map (fun a => a.map fun
+        | .arcs (some l) => l.map (·.to)
+        | _ => []) = [.ok [], .ok [2]] := by decide
+
+/-! ### result objects kept by the client
+
+`Model/C14R.lean`: a `Session` is the graph objects (`World`) and the result objects the client holds; `keep q` makes
+the call on the current object and keeps the object it returns, `ask i sel` reads result `i` (everything, or one
+`To(v)` / `PathTo(v)`). -/
+
+/-- **Keeping and reading results does nothing to the graphs.**  The objects at the end of any session are those
+of the history with the `keep` and `ask` steps left out, and the `AddEdge` calls, direct queries, `Reverse()` calls of
+the session returned what they return in that history — to which `C14_world_refines` and `C14_history_admitted`
+apply. -/
+theorem C14_session_objects (s : Session) (ops : List ROp) :
+    (s.run ops).1.w = (s.w.run (baseOps ops)).1 ∧ pickBase ops (s.run ops).2 = (s.w.run (baseOps ops)).2 :=
+  run_w ops s
+
+/-- **A kept result keeps answering for the graph it was computed on.**  Take any session that starts with
+`NewX(n, es0…)`: any history `pre` (on any number of objects), then `r := cur.Q(…)` kept as a result (the call
+returned: `hr`), then any history `mid` — `AddEdge` on the same graph or another one, other traversals and
+algorithms, further results kept, results read, `Reverse()` —, then a read of `r`, then anything.  The read returns
+exactly what the query `Q` (for one target: `Paths(s).To(v)`, `ShortestPathTree(s).PathTo(v)`) returns when asked
+and read in one step at the moment of the `keep`; the graph then was the one built from the current object's calls
+so far (`so`, `C14_world_refines`), and the answer is what the property demands for exactly that graph (`Admits`:
+paths sound, complete, fewest edges for BFS; components by (mutual) reachability; cycle / topological order;
+minimum spanning forest; shortest paths).  Nothing in `mid` — and no earlier read — can change it.
+(Seeded change C14-q2: a scratch slice of visited flags owned by the graph and retained by `*Paths` is excluded by
+this theorem for the Model and shows as a difference between implementation and Model on
+`corpus/C14/17-results-kept.ops`.) -/
+theorem C14_kept_results (k : Kind) (n : Nat) (es0 : List EdgeIn) (pre mid post : List ROp) (q : Query)
+    (sel : Option Int) (hq : q.keepable = true) (r : Res)
+    (hr : ((Session.init k n es0).run pre).1.w.obj.compute q = .ok r) :
+    let sj := ((Session.init k n es0).run pre).1
+    let so := ((⟨#[⟨k, n, es0⟩], 0⟩ : SWorld).run (baseOps pre)).1.obj
+    let a := sj.w.obj.answer (q.at sel)
+    sj.w.obj = GObj.build so.k so.n so.es ∧
+    ((Session.init k n es0).run
+        (pre ++ (.keep q :: (mid ++ (.ask sj.kept.size sel :: post))))).2[pre.length + 1 + mid.length]? = some a ∧
+    ((q.at sel).applies so.k = true → Admits so.k so.n so.es (q.at sel) a) := by
+  intro sj so a
+  have hw : sj.w = ((⟨#[⟨k, n, es0⟩], 0⟩ : SWorld).run (baseOps pre)).1.eval := by
+    show ((Session.init k n es0).run pre).1.w = _
+    rw [(run_w pre (Session.init k n es0)).1]
+    show ((World.initWith k n es0).run _).1 = _
+    rw [← initWith_eval, run_refines]
+  have hobj : sj.w.obj = GObj.build so.k so.n so.es := by rw [hw, eval_obj]; rfl
+  refine ⟨hobj, ?_, fun hap => ?_⟩
+  · rw [(run_append pre _ (Session.init k n es0)).2,
+      List.getElem?_append_right (by rw [run_length]; omega), run_length]
+    have hidx : pre.length + 1 + mid.length - pre.length = mid.length + 1 := by omega
+    rw [hidx]
+    have hstep : sj.step (.keep q) = ({ sj with kept := sj.kept.push ⟨sj.w.obj, q, r⟩ }, .ok .unit) := by
+      simp only [Session.step]
+      rw [show sj.w.obj.compute q = .ok r from hr]
+    show (sj.run (.keep q :: (mid ++ (.ask sj.kept.size sel :: post)))).2[mid.length + 1]? = some a
+    simp only [Session.run, List.getElem?_cons_succ, hstep]
+    rw [run_ask mid _ sj.kept.size ⟨sj.w.obj, q, r⟩ sel post (by simp)]
+    have hc := compute_ask sj.w.obj q hq sel
+    rw [show sj.w.obj.compute q = .ok r from hr] at hc
+    exact congrArg some hc
+  · show Admits so.k so.n so.es (q.at sel) (sj.w.obj.answer (q.at sel))
+    rw [hobj]
+    exact answer_admitted so.k so.n so.es _ hap
+
+/-- the session of `corpus/C14/17-results-kept.ops`, case 1 (beginning): `p := g.Paths(0, DFS)` kept, then
+`g.Paths(3, BFS)`, `g.ConnectedComponents()` and `AddEdge(2, 3)`, then `p.To(2)`, `p.To(4)` -/
+def C14_exKept : List ROp :=
+  [.keep (.paths .dfs 0), .keep (.paths .bfs 3), .keep .cc, .base (.edge 2 3 0), .ask 0 (some 2), .ask 0 (some 4),
+   .base (.query (.path .dfs 0 4))]
+
+-- `p` still says: 2 is reached by 0-1-2, 4 is not reachable — although it is in the graph as it is now
+example : ((Session.init .undirected 6 [⟨0, 1, 0⟩, ⟨1, 2, 0⟩, ⟨3, 4, 0⟩]).run C14_exKept).2.map (fun a => a.map fun
+      | .path p => p
+      | _ => none) =
+    [.ok none, .ok none, .ok none, .ok none, .ok (some [0, 1, 2]), .ok none, .ok (some [0, 1, 2, 3, 4])] := by
+  decide
+-- the hypothesis `hr` for its first step: the call returns (visited = {0, 1, 2}, edgeTo[2] = 1)
+example : (((Session.init .undirected 6 [⟨0, 1, 0⟩, ⟨1, 2, 0⟩, ⟨3, 4, 0⟩]).run []).1.w.obj.compute
+      (.paths .dfs 0)).map (fun
+        | .paths p => (p.visited.toList, p.edgeTo.toList)
+        | _ => ([], [])) = .ok ([true, true, true, false, false, false], [0, 0, 1, 0, 0, 0]) := by decide
